@@ -62,6 +62,14 @@ func Setup() {
 	add(u(spec.Rel(spec.S("preceding", tNode)), spec.Rel(spec.S("following", tNode))), false)
 	add(u(u(spec.Rel(spec.S("attribute", tAny)), spec.Rel(spec.S("child", tNode))), spec.Rel(spec.S("self", tNode))), false)
 	add(u(spec.Rel(spec.S("parent", tNode), spec.S("attribute", tAny)), spec.AbsP(dos, spec.S("attribute", tAny))), false)
+	allNS := spec.AbsP(dos, spec.S("namespace", tNode))
+	allAttr := spec.AbsP(dos, spec.S("attribute", tAny))
+	allNodes := spec.AbsP(dos, spec.S("child", tNode))
+	add(u(allNS, allNodes), false)
+	add(u(u(allNS, allAttr), allE), false)
+	add(u(spec.Rel(spec.S("descendant-or-self", tNode), spec.S("namespace", tNode)), spec.Rel(spec.S("following", tNode))), false)
+	add(allNS, false)
+	add(spec.Fn("count", u(allNS, allNodes)), false)
 	unionVW = build("$v | $w")
 	unionWV = build("$w | $v")
 	unionVV = build("$v | $v")
